@@ -6,20 +6,6 @@ Inductive case :=
 | CMono (before : list N) (after : list entry)
 | CListing (vals : list entry) (listing : list N).
 
-(** is [a] a subsequence of [b] *)
-Fixpoint subseq (a b : list N) : bool :=
-  match a, b with
-  | [], _ => true
-  | _, [] => false
-  | x :: a', y :: b' => if (x =? y)%N then subseq a' b' else subseq a b'
-  end.
-
-Fixpoint sorted_asc (l : list entry) : bool :=
-  match l with
-  | a :: ((b :: _) as t) => key_ltb a b && sorted_asc t
-  | _ => true
-  end.
-
 Definition check (c : case) : bool * bool :=
   match c with
   | CQuery listing b a got =>
